@@ -227,7 +227,7 @@ class FFTMTF:
                 limit reference line. Defaults to False.
         """
         dx = self._get_mtf_units()
-        freq = np.arange(self.grid_size//2) * dx
+        freq = np.arange(len(self.mtf[0][0])) * dx
 
         _, ax = plt.subplots(figsize=figsize)
 
@@ -313,7 +313,9 @@ class FFTMTF:
             float: The MTF units calculated based on the grid size, number
                 of rays, wavelength, and F-number.
         """
+        # the PSF spans grid_size pixels of wavelength * FNO / Q microns each;
+        # the MTF frequency step is the inverse of that extent, in cycles/mm
         Q = self.grid_size / self.num_rays
-        dx = Q / (self.wavelength * self.FNO)
+        dx = 1e3 * Q / (self.wavelength * self.FNO * self.grid_size)
 
         return dx
